@@ -67,7 +67,7 @@ def gen_program(r, idx):
     """a small module; returns (files, expected locations relative to module root, description)"""
     pkgdir = r.choice(['', 'sub', 'sub/pkg/deep'])
     pkgname = 'prog' if not pkgdir else pkgdir.split('/')[-1]
-    shape = r.choice(['direct', 'helper-nontest', 'closure', 'goroutine', 'subtest', 'deep-helpers', 'standalone', 'config'])
+    shape = r.choice(['direct', 'helper-nontest', 'closure', 'goroutine', 'subtest', 'deep-helpers', 'standalone', 'config', 'suite-nontest'])
     tf = 'x%d_test.go' % idx
     files = {'go.mod': GOMOD}
     imports = ['"testing"', '"github.com/gkampitakis/go-snaps/snaps"']
@@ -84,6 +84,12 @@ def gen_program(r, idx):
         files[posixpath.join(pkgdir, 'helper.go')] = helper
         body = 'func TestShape(t *testing.T) {\n\tcheck(t, "v")\n}\n'
         exp.append(posixpath.join(base, stem + '.snap'))
+    elif shape == 'suite-nontest':
+        # the subtest body is a function of a non-test file: below testing.tRunner there is no
+        # *_test.go frame, the outermost user file names the snapshot
+        files[posixpath.join(pkgdir, 'suite.go')] = 'package %s\n\nimport (\n\t"testing"\n\t"github.com/gkampitakis/go-snaps/snaps"\n)\n\nfunc SuiteBody(t *testing.T) {\n\tsnaps.MatchSnapshot(t, "v")\n}\n' % pkgname
+        body = 'func TestShape(t *testing.T) {\n\tt.Run("sub", SuiteBody)\n}\n'
+        exp.append(posixpath.join(base, 'suite.snap'))
     elif shape == 'closure':
         body = 'func TestShape(t *testing.T) {\n\tf := func() { func() { snaps.MatchSnapshot(t, "v") }() }\n\tf()\n}\n'
         exp.append(posixpath.join(base, stem + '.snap'))
